@@ -558,7 +558,15 @@ class Sys:
                 self.de = a
         self.log.append("a = container.get_attribute(name)")
         self.check_answers("registry", "get_attribute")
-        if delete:
+        if delete and rng.random() < 0.35:
+            # created again under the same name WITHOUT deleting first: documented to override the existing attribute (a new attribute,
+            # every entry at its default), whatever config.display_duplicate_attribute_warning says
+            self.log.append("create_attribute(name, same declaration) over the existing attribute")
+            self.ctx.cls("op:create_over_existing")
+            self.create(rng)
+            self.check_answers("registry", "create_over_existing")
+            self.check_align("create_over_existing")
+        elif delete:
             self.log.append("delete_attribute(name); create_attribute(name, same declaration)")
             for c, name in ((self.cs, "sp"), (self.cd, "de")):
                 self.call("registry", "delete_attribute", c.delete_attribute, name)
